@@ -576,7 +576,7 @@ def r14_11(ctx):
                                 truthy.add(a[4:])
                 ctx.check(bool(need & truthy), f.fq, short(x), where, f"{x.func.id}() over {sname}.{it.func.attr}() is dominated by a non-blank test of {sname}",
                           f"`{short(x)}`: `{sname}.{it.func.attr}()` is empty when `{sname}` is {'empty' if it.func.attr == 'splitlines' else 'blank'} and nothing on the way excludes that (no default=, no dominating test of {sorted(need)}): {x.func.id}() raises ValueError - e.g. measuring Pretty(obj) for an object whose repr is the empty string")
-    ctx.floor(n, 2, "max()/min() over split pieces of a string")
+    ctx.floor(n, 1, "max()/min() over split pieces of a string")
 
 
 RULES = [r14_1, r14_2, r14_3, r14_4, r14_5, r14_6, r14_7, r14_8, r14_9, r14_10, r14_11]
